@@ -80,6 +80,29 @@ pub fn obtain_then_step<M: MArch, const N: usize>(kind: u8, op: u8, paths: u8) {
             }
             if world.contains(d) { STILL_ACCEPTED.with(|c| c.set(true)); }
         }
+        3 => {
+            // a FAILED destroy (stale / unknown key of any kind) is not a structural change
+            let (k2, g2) = any_issued_like::<N>();
+            sym::assume(g2 != 0 && (k2 & 0xff) as u8 == M::ID && m.lookup(M::ID, k2, g2).is_none());
+            let stale = EntityAny::from_raw((k2, g2)).ok().unwrap();
+            let which = sym::any_u8();
+            let refused = match which & 3 {
+                0 => world.destroy(stale).is_none(),
+                1 => M::arch_mut(&mut world).destroy(stale).map(|c| M::un(c)).is_none(),
+                2 => {
+                    let (i2, v2) = any_direct_like::<N>(&m);
+                    sym::assume(m.lookup_direct(M::ID, ((i2 as u32) << 8) | M::ID as u32, v2).is_none());
+                    world.destroy(direct_of::<M>(i2, v2)).is_none()
+                }
+                _ => {
+                    let typed2: Entity<M::Arch> = stale.try_into().ok().unwrap();
+                    world.destroy(typed2).is_none()
+                }
+            };
+            assert!(refused);
+            assert!(world.contains(d) && M::q_find(&mut world, Key::Direct(d)) == Some(((key, ver), m.val[k])), "a direct handle was rejected after a FAILED destroy (no structural change happened)");
+            probe_direct::<M, N>(&mut world, &m, k, m.version, paths);
+        }
         _ => {
             // removal of the LAST dense entity followed by a creation at the same dense index
             sym::assume(k + 1 == m.len);
@@ -183,6 +206,7 @@ harness! { fn c09_obtain_wdirectany_remove_foo_2() unwind(4) { obtain_then_step:
 harness! { fn c09_obtain_typed_recreate_tri_2() unwind(4) { obtain_then_step::<w3::Tri, 2>(0, 2, P_ARCH) } }
 harness! { fn c09_obtain_any_create_tri_3() unwind(5) { obtain_then_step::<w3::Tri, 3>(1, 1, P_QUERY) } }
 
+harness! { fn c09_obtain_typed_failed_destroy_foo_3() unwind(5) { obtain_then_step::<w1::Foo, 3>(0, 3, P_ARCH) } }
 harness! { fn c09_step_destroy_foo_3() unwind(5) { step_probe_direct::<w1::Foo, 3>(0, P_ALL) } }
 harness! { fn c09_step_create_foo_3() unwind(5) { step_probe_direct::<w1::Foo, 3>(1, P_ALL) } }
 harness! { fn c09_step_destroy_foo_4() unwind(6) { step_probe_direct::<w1::Foo, 4>(0, P_ARCH) } }
